@@ -62,6 +62,22 @@ func SchemaFromDDL(ddl string) (*Schema, error) {
 	}
 	sc := &Schema{Tables: map[string]*Table{}, DDL: stmts}
 	for _, s := range stmts {
+		if s.Kind == "pragma" {
+			// a pragma in the start-up script that switches off what atomicity, isolation or durability rest on
+			bad := false
+			switch s.Table {
+			case "journal_mode":
+				bad = s.PragmaValue == "OFF" || s.PragmaValue == "MEMORY"
+			case "synchronous":
+				bad = s.PragmaValue == "OFF" || s.PragmaValue == "0" || s.PragmaValue == "NORMAL" || s.PragmaValue == "1"
+			case "read_uncommitted", "writable_schema", "ignore_check_constraints":
+				bad = s.PragmaValue != "0" && s.PragmaValue != "OFF" && s.PragmaValue != "FALSE" && s.PragmaValue != "NO"
+			}
+			if bad {
+				sc.TypeProblems = append(sc.TypeProblems, fmt.Sprintf("PRAGMA %s = %s", s.Table, s.PragmaValue))
+			}
+			continue
+		}
 		if s.Kind != "create-table" {
 			continue
 		}
